@@ -16,6 +16,10 @@ type Roles struct {
 	DocSkel     string          // key layout of document records
 	CatalogSkel string          // key layout of the collection catalog
 	IndexSkel   string          // key layout of index entries
+	// DocWrappers: functions that hand two of their own parameters (document, key) to a
+	// document writer or to another wrapper; value: the indexes of those parameters.
+	// The obligations on a save are checked at the call sites of the outermost wrapper.
+	DocWrappers map[*ssa.Function][2]int
 	model       *keyModel
 }
 
@@ -71,6 +75,48 @@ func (c *Ctx) Roles() *Roles {
 					r.IndexSkel = t.skeleton()
 				}
 			}
+		}
+	}
+	r.DocWrappers = map[*ssa.Function][2]int{}
+	for changed := true; changed; {
+		changed = false
+		for _, fn := range c.LibFuncs {
+			if fn.Parent() != nil || isW[fn] {
+				continue
+			}
+			if _, done := r.DocWrappers[fn]; done {
+				continue
+			}
+			allCalls(fn, func(call ssa.CallInstruction) {
+				g := staticCallee(call)
+				if g == nil {
+					return
+				}
+				g = c.declared(g)
+				di, ki := -1, -1
+				if isW[g] {
+					di, ki = c.docParamIndex(g), c.keyParamIndex(g)
+				} else if w, ok := r.DocWrappers[g]; ok {
+					di, ki = w[0], w[1]
+				}
+				args := call.Common().Args
+				if di < 0 || ki < 0 || di >= len(args) || ki >= len(args) {
+					return
+				}
+				pd, pk := -1, -1
+				if p, ok := args[di].(*ssa.Parameter); ok {
+					pd = paramIndex(fn, p)
+				}
+				for _, og := range origins(stripConv(args[ki])) {
+					if p, ok := stripConv(og).(*ssa.Parameter); ok {
+						pk = paramIndex(fn, p)
+					}
+				}
+				if pd >= 0 && pk >= 0 {
+					r.DocWrappers[fn] = [2]int{pd, pk}
+					changed = true
+				}
+			})
 		}
 	}
 	isMR := map[*ssa.Function]bool{}
